@@ -570,7 +570,13 @@ func (g *Gen) havocTarget(env *Env, st *State, m Expr) error {
 			// every element of every slice/array with this element type (given by a slice expression or a type name)
 			var sl *types.Slice
 			tname := ""
-			switch a := x.Args[0].(type) {
+			tptr := false
+			targ := x.Args[0]
+			if d, ok := targ.(*Deref); ok {
+				tptr = true
+				targ = d.X
+			}
+			switch a := targ.(type) {
 			case *Ident:
 				tname = a.Name
 			case *Field:
@@ -583,7 +589,9 @@ func (g *Gen) havocTarget(env *Env, st *State, m Expr) error {
 				if _, isVar := env.vars[root]; !isVar && env.lookupLocal(root) == nil {
 					g.dryFacts++
 					if t, terr := g.W.lookupType(&TypeX{Kind: "name", Name: tname}, env.pkgPath); terr == nil {
-						if us, ok := types.Unalias(t).Underlying().(*types.Slice); ok {
+						if tptr {
+							sl = types.NewSlice(types.NewPointer(t))
+						} else if us, ok := types.Unalias(t).Underlying().(*types.Slice); ok {
 							sl = us // a named slice type stands for "slices of its element type"
 						} else {
 							sl = types.NewSlice(t)
